@@ -108,7 +108,12 @@ theorem activeStage_mem {w : Wl} {now : Nat} {st : Stage} (h : w.activeStage now
 /-- "… or holds a valid Merkle proof **bound to the sender**": against a whitelist that keeps no member list (the two
 Merkle whitelists) the only way through is the sibling path of the leaf built from the sender's OWN address (and the
 stage / allocation the sender states) in the tree in force — a path generated for anybody else's leaf, for another
-tree or for another whitelist never lets this sender mint. -/
+tree or for another whitelist never lets this sender mint.
+
+SCOPE: leaves are modelled as structured `Leaf` triples and `verifies` accepts `forLeaf k i l` iff `l` is the claimed triple,
+so "bound to the sender" holds here by construction of the verification interface. That the minters' string
+`format!(stage, sender, allocation)` is injective on these triples is not a C04 fact: it is `C03_leaf_binds` (same-length
+address strings that do not start with a digit); Merkle soundness of the fold is C14. -/
 theorem C04_merkle_proof_bound_to_sender (s s' : State) (m : Minter) (a : MintArgs) (k : Nat) (w : Wl)
     (hm : s.minter = some m) (hk : m.wl = some k) (hw : s.wls k = some w) (hact : w.isActive s.now = true)
     (hnolist : ∀ st ∈ w.stages, st.members = [])
